@@ -179,8 +179,25 @@ def run_cache_method(m, ci, name, unroll=2):
     eng = Engine(model, unroll=unroll)
     a = fi.node.args
     st_label = (name,)
-    outs = eng.run_function(fi.node, {}, params={a.args[0].arg: SELF})
+    params = {a.args[0].arg: SELF}
+    # the properties speak about the existing API: a parameter that was added later (not in the published signature) is judged at its
+    # constant default - `drop(*, sync=False)` behaves like `drop()` unless the new flag is used
+    known = KNOWN_SIGNATURES.get(name)
+    if known is not None:
+        pos = [x.arg for x in a.args][1:]
+        dflt = dict(zip(pos[len(pos) - len(a.defaults):], a.defaults)) if a.defaults else {}
+        for x, dv in zip(a.kwonlyargs, a.kw_defaults):
+            if dv is not None:
+                dflt[x.arg] = dv
+        for pname, dv in dflt.items():
+            if pname not in known and isinstance(dv, ast.Constant):
+                params[pname] = C(dv.value)
+    outs = eng.run_function(fi.node, {}, params=params)
     return fi, outs
+
+
+KNOWN_SIGNATURES = {'load': (), 'dump': (), 'sync': ('clear',), 'archived': (), 'open': ('archive',), 'drop': (), 'popkeys': ('keys',),
+                    '__init__': (), '__repr__': (), 'to_frame': ()}
 
 
 AKINDS = ('AREAD', 'AREADMISS', 'AUPDATE', 'ACLEAR', 'AREMOVE', 'AOTHER', 'REBIND')
@@ -209,8 +226,12 @@ def rule_S_PLAIN_EFF(ctx, repo):
         if name.startswith('_') and name not in ('__init__', '__repr__'):
             # private property helpers: getters may rebind a corrupted slot, setter rebinding is their job
             allow = {'REBIND', 'AREAD'}
-        else:
+        elif name in allowed or name in DICT_PRIMS or hasattr(dict, name):
             allow = allowed.get(name, set())
+        else:
+            # a method that is not part of the published interface (a later addition): it may consult the archive, it must not change it
+            # other than by composing the public operations - which are judged themselves
+            allow = {'AREAD', 'AREADMISS'}
         fi, outs = run_cache_method(m, ci, name)
         ctx.analysed(fi.qual)
         ctx.add_paths(outs, fi.qual, trivial_kinds=('BRANCH', 'CAUGHT'))
